@@ -226,7 +226,7 @@ def signature(mod, exp, ev):
         unchanged = before == sorted(ev['after'])
         if ev['panic']:
             key = None
-        elif ev['cls'] == 'ListWithNull' and not ev['err'] and unchanged:
+        elif ev['cls'] == 'ListWithNull' and not ev['err'] and unchanged and not x.get('redelivery'):
             # a null element: nothing applied, yet no error (the panic of the updater is swallowed by Handle's recover)
             key = 'C18/%s/null-element/panic-swallowed-nil-error' % mod
         elif why.startswith('identical') and unchanged and ev['upd'] >= 1 and mod == 'flow' and cold_factor_defaulted(ev):
@@ -263,6 +263,10 @@ def param_key_dropped(ev):
     return alt['cls'] in ('List', 'ListWithNull') and sorted(alt['desc']) == sorted(ev['after'])
 
 
+def size(s):
+    return sum(1 + len(o.get('l') or []) for o in s)
+
+
 def candidates(s):
     out = []
     for i in range(1, len(s)):
@@ -270,6 +274,13 @@ def candidates(s):
             continue
         if len(s) > 2:
             out.append(s[:i] + s[i + 1:])
+    for i in range(1, len(s)):
+        l = s[i].get('l') or []
+        for j in range(len(l) if len(l) > 1 else 0):
+            o = dict(s[i])
+            o['l'] = l[:j] + l[j + 1:]
+            # keep identical re-deliveries identical: shrink every operation that carries the same list
+            out.append([o if k == i else (dict(x, l=o['l']) if x.get('l') == l and x.get('kind') == s[i].get('kind') else x) for k, x in enumerate(s)])
     return out
 
 
@@ -280,7 +291,7 @@ def collect(groups, scns, mism):
         key, gsig, why = signature(s[0]['m'], exp, ev)
         g = groups.setdefault(gsig, dict(key=key, why=why, n=0, best=None))
         g['n'] += 1
-        if g['best'] is None or len(s) < len(g['best']):
+        if g['best'] is None or size(s) < size(g['best']):
             g['best'] = s
 
 
@@ -319,7 +330,7 @@ def conclude(c, drv, groups):
         progress = False
         for k in sorted(hit):
             gsig, cand = items[k]
-            if len(cand) < len(cur[gsig]):
+            if size(cand) < size(cur[gsig]):
                 cur[gsig] = cand
                 progress = True
         if not progress:
@@ -331,6 +342,12 @@ def conclude(c, drv, groups):
         mod = s[0]['m']
         rp = c.save_replay('%s-tr%d.ndjson' % (gsig.replace('/', '_').replace(' ', '_')[:80], s[0]['tr']), s)
         ok = sum(1 for h in conf if k in h)
+        if ok < 2 and g['why'] == 'convergence':
+            # merely late under the short grace period: with the long one the source converged
+            c.cov['late_file_events'] = c.cov.get('late_file_events', 0) + g['n']
+            c.log('file events that converged only with the long grace period: %s (%d traces)' % (gsig, g['n']))
+            os.remove(rp)
+            continue
         if ok < 2:
             c.inconclusive.append('mismatch group %s (%d traces) did not reproduce from %s (%d/2)' % (gsig, g['n'], rp, ok))
             continue
@@ -469,7 +486,7 @@ def check(c, tier, replay):
     # S2 ---------------------------------------------------------------------------------
     scns, tr = [], 0
 
-    def gen(withfile, maxlen, maxops, valid, cap, args=(), workers=4):
+    def gen(withfile, maxlen, maxops, valid, cap, args=(), workers=1):
         cfg = mc_cfg(withfile, maxlen, maxops, valid, check=False, extra='ACTION_CONSTRAINT Emit\n')
         r = c.tlc('Datasource_MC', cfg_text=cfg, workers=workers, timeout=900, count=False, args=list(args))
         if r.error and not args:
@@ -486,15 +503,16 @@ def check(c, tier, replay):
     for i, h in enumerate(hs):
         tr += 1
         scns.append(concretise(h, MODS[i % 5], tr, rng.randrange(NPOOL), cnt=rng.random() < 0.5))
-    hs, n = gen(False, 3, 9, 'MCValid3', 10 ** 9, args=['-simulate', 'num=%d' % (60 if not thorough else 600), '-depth', '9', '-seed', str(c.seed)], workers=1)
+    hs, n = gen(False, 3, 9, 'MCValid3', 10 ** 9, args=['-simulate', 'num=%d' % (60 if not thorough else 600), '-depth', '9', '-seed', str(c.seed)])
     cover['handler_sim'] = len(hs)
     for i, h in enumerate(hs):
         tr += 1
         scns.append(concretise(h, MODS[i % 5], tr, rng.randrange(NPOOL), cnt=rng.random() < 0.5))
     fscns = []
-    hs, n = gen(True, 1, 4, 'MCValid', 60 if not thorough else 600)
+    hs, n = gen(True, 1, 3 if not thorough else 4, 'MCValid', 35 if not thorough else 500)
     cover['file'] = n
-    for i, h in enumerate(hs):
+    hs2, _ = gen(True, 2, 7, 'MCValid', 10 ** 9, args=['-simulate', 'num=%d' % (25 if not thorough else 300), '-depth', '14', '-seed', str(c.seed)])
+    for i, h in enumerate(hs + [h for h in hs2 if len(h) > 2]):
         tr += 1
         fscns.append(concretise(h, MODS[i % 5], tr, rng.randrange(NPOOL), cnt=False, grace=grace))
     c.log('S2 transition cover: %d handler histories (%d sampled), %d simulated behaviours, %d file histories (%d sampled)' % (
